@@ -161,30 +161,34 @@ def _stores(st: ast.stmt) -> List[str]:
     return out
 
 
-def specialise(stmts: Iterable[ast.stmt], ge: GuardEval) -> Iterator[ast.stmt]:
+def specialise(stmts: Iterable[ast.stmt], ge: GuardEval, marks: Optional[dict] = None, definite: bool = True) \
+        -> Iterator[ast.stmt]:
     """simple statements of `stmts` that can execute under ge (branches whose test is decided are pruned); a name that
-    is re-assigned leaves the environment"""
+    is re-assigned leaves the environment.  When `marks` is given, marks[id(stmt)] says whether the statement is
+    reached on every execution of its enclosing loop body / function under ge (no undecided test in between)."""
     for st in stmts:
         if isinstance(st, ast.If):
             v = ge.eval(st.test)
             if v is UNK or v:
-                yield from specialise(st.body, ge)
+                yield from specialise(st.body, ge, marks, definite and v is not UNK)
             if v is UNK or not v:
-                yield from specialise(st.orelse, ge)
+                yield from specialise(st.orelse, ge, marks, definite and v is not UNK)
         elif isinstance(st, (ast.For, ast.AsyncFor, ast.While)):
-            yield from specialise(st.body, ge)
-            yield from specialise(st.orelse, ge)
+            yield from specialise(st.body, ge, marks, definite)
+            yield from specialise(st.orelse, ge, marks, definite)
         elif isinstance(st, (ast.With, ast.AsyncWith)):
-            yield from specialise(st.body, ge)
+            yield from specialise(st.body, ge, marks, definite)
         elif isinstance(st, ast.Try):
-            yield from specialise(st.body, ge)
+            yield from specialise(st.body, ge, marks, definite)
             for h in st.handlers:
-                yield from specialise(h.body, ge)
-            yield from specialise(st.orelse, ge)
-            yield from specialise(st.finalbody, ge)
+                yield from specialise(h.body, ge, marks, False)
+            yield from specialise(st.orelse, ge, marks, definite)
+            yield from specialise(st.finalbody, ge, marks, definite)
         elif isinstance(st, (ast.FunctionDef, ast.AsyncFunctionDef, ast.ClassDef)):
             continue
         else:
+            if marks is not None:
+                marks[id(st)] = definite
             yield st
             for name in _stores(st):
                 for k in [k for k in ge.env if k == name]:
